@@ -195,3 +195,99 @@ def unit_fully_diagonalize_normalisation(nb, given, timeout_ms=20000):
             eng.oblige("empty-means-block-0-for-a-single-block-and-nothing-otherwise", z3.BoolVal(o is not None and o.items == want), detail=repr(out)[:200])
     return run_unit(f"block_diagonalization:block_diagonalize/fully_diagonalize-normalisation[{nb} blocks,{given}]", harness,
                     functions=[(MODULE, "block_diagonalize")], timeout_ms=timeout_ms)
+
+
+# ------------------------------------------------------------------------------------------------
+def unit_check_biorthonormality(nsub, timeout_ms=20000):
+    """_check_biorthonormality (numeric branch): raises ValueError iff (hstack of all left vectors)^dagger @ (hstack of all right vectors)
+    is not allclose to the identity of that size within atol - i.e. L^dagger R = 1 over ALL supplied vectors, cross terms between
+    subspaces included; vectors are taken in the order given, sparse ones densified; nothing is modified."""
+    fn = frontend.find(MODULE, "_check_biorthonormality")
+
+    def harness(eng):
+        rights = [Val(f"R{b}", ("ndarray",)) for b in range(nsub)]
+        lefts = [Val(f"L{b}", ("ndarray",)) for b in range(nsub)]
+        close = eng.fresh("overlap_is_close_to_identity", "bool")
+        seen = {}
+
+        def hstack(e, seq):
+            s = e.as_seq(seq)
+            return T("hstack", *s.items)
+
+        def allclose(e, a, b, atol=None):
+            seen["allclose"] = (a, b, atol)
+            return SB(close)
+        ATOL = T("atol")
+        T_getattr = T.m_getattr
+
+        def patched(self, e, name):
+            if name == "shape":
+                return STup([T("rows", self), T("cols", self)])
+            return T_getattr(self, e, name)
+        eng.globals.update({"np": Namespace("np", {"ndarray": TypeObj("ndarray"), "hstack": Builtin("hstack", hstack), "allclose": Builtin("allclose", allclose),
+                                                   "eye": Builtin("eye", lambda e, n: T("eye", n))}),
+                            "sparse": Namespace("sparse", {"issparse": Builtin("issparse", lambda e, x: False), "spmatrix": TypeObj("spmatrix"), "sparray": TypeObj("sparray")}),
+                            "sympy": Namespace("sympy", {"MatrixBase": TypeObj("MatrixBase")}),
+                            "Dagger": Builtin("Dagger", lambda e, x: T("Dagger", x))})
+        T.m_getattr = patched
+        try:
+            try:
+                eng.call(Closure(fn, Env(None, {}), "_check_biorthonormality"), [STup(list(rights)), STup(list(lefts))], {"atol": ATOL})
+                raised = None
+            except PyRaise as pr:
+                raised = pr.exc.cls
+        finally:
+            T.m_getattr = T_getattr
+        eng.oblige("raises-ValueError-iff-the-overlap-is-not-the-identity", z3.BoolVal(raised == "ValueError") == z3.Not(close) if raised in (None, "ValueError") else z3.BoolVal(False),
+                   detail=f"raised {raised}")
+        ok = "allclose" in seen
+        eng.oblige("overlap-compared-with-allclose", z3.BoolVal(ok))
+        if ok:
+            a, b, atol = seen["allclose"]
+            want_overlap = T("MatMult", T("Dagger", T("hstack", *lefts)), T("hstack", *rights))
+            from contracts.direct import term_eq_py
+            eng.oblige("overlap-is-(all-left)^dagger-(all-right)-in-the-given-order", z3.BoolVal(term_eq_py(a, want_overlap)), detail=repr(a)[:300])
+            eng.oblige("compared-with-the-identity-of-the-number-of-vectors", z3.BoolVal(isinstance(b, T) and b.head == "eye" and term_eq_py(b.args[0], T("cols", T("hstack", *rights)))), detail=repr(b)[:200])
+            eng.oblige("tolerance-is-atol", z3.BoolVal(atol is ATOL))
+    return run_unit(f"block_diagonalization:_check_biorthonormality[{nsub} subspaces]", harness, functions=[(MODULE, "_check_biorthonormality")], timeout_ms=timeout_ms)
+
+
+def unit_normalize_subspaces(timeout_ms=20000):
+    """_normalize_subspace_eigenvectors: a plain basis V means (V, V); a pair (R, L) is kept in that order; shapes must agree."""
+    fn = frontend.find(MODULE, "_normalize_subspace_eigenvectors")
+
+    def harness(eng):
+        same_rows = eng.fresh("same_ambient_dimension", "bool")
+        same_cols = eng.fresh("same_number_of_vectors", "bool")
+        pair_len_ok = bool(eng.branch(eng.fresh("pair_has_two_entries", "bool")))
+        V = Val("V", ("ndarray",))
+        R, L = Val("R", ("ndarray",)), Val("L", ("ndarray",))
+        T_getattr = T.m_getattr
+
+        def patched(self, e, name):
+            if name == "shape":
+                if self is L:
+                    return STup([SI(eng.fresh("Lrows")) if not eng.branch(same_rows) else SI(rr), SI(eng.fresh("Lcols")) if not eng.branch(same_cols) else SI(rc)])
+                return STup([SI(rr), SI(rc)])
+            return T_getattr(self, e, name)
+        rr, rc = eng.fresh("rows"), eng.fresh("cols")
+        pair = STup([R, L]) if pair_len_ok else STup([R, L, Val("X", ("ndarray",))])
+        T.m_getattr = patched
+        try:
+            try:
+                res = eng.call(Closure(fn, Env(None, {}), "_normalize_subspace_eigenvectors"), [STup([V, pair])], {})
+                raised = None
+            except PyRaise as pr:
+                raised = pr.exc.cls
+        finally:
+            T.m_getattr = T_getattr
+        if raised is not None:
+            eng.oblige("raises-only-ValueError-for-a-malformed-pair-or-mismatching-shapes", z3.And(z3.BoolVal(raised == "ValueError"), z3.Or(z3.BoolVal(not pair_len_ok), z3.Not(same_rows), z3.Not(same_cols))), detail=raised)
+            return
+        eng.oblige("malformed-pair-rejected", z3.BoolVal(pair_len_ok))
+        r = eng.as_seq(res)
+        rights, lefts = eng.as_seq(r.items[0]), eng.as_seq(r.items[1])
+        eng.oblige("plain-basis-is-used-on-both-sides", z3.BoolVal(rights.items[0] is V and lefts.items[0] is V))
+        eng.oblige("pair-is-(right,left)-in-that-order", z3.BoolVal(rights.items[1] is R and lefts.items[1] is L))
+        eng.oblige("one-entry-per-subspace", z3.BoolVal(len(rights.items) == 2 and len(lefts.items) == 2))
+    return run_unit("block_diagonalization:_normalize_subspace_eigenvectors", harness, functions=[(MODULE, "_normalize_subspace_eigenvectors")], timeout_ms=timeout_ms)
